@@ -118,8 +118,16 @@ SummarySelectsThatDay ==
     selected = SelectSeq([i \in 1..Len(log) |-> i], LAMBDA i : log[i] = DayOf(arg))
 FileOrderKept == \A x, y \in 1..Len(selected) : x < y => selected[x] < selected[y]
 
+\* stats (stats.go:43-79, stats_reporter.go): numbers of headings, first and last heading in FILE order, and
+\* their distances in days from --today (the period options do not apply to stats)
+StatsOf == [records |-> Len(log),
+            first   |-> IF log = <<>> THEN 0 ELSE log[1],
+            last    |-> IF log = <<>> THEN 0 ELSE log[Len(log)],
+            firstAgo |-> IF log = <<>> THEN 0 ELSE today - log[1],
+            lastAgo  |-> IF log = <<>> THEN 0 ELSE today - log[Len(log)]]
+
 DumpInv ==
   (Dump /\ done) =>
     PrintT(ToJson([log |-> log, kind |-> kind, bG |-> bG, eG |-> eG, bS |-> bS, eS |-> eS, arg |-> arg,
-                   today |-> today, zone |-> zone, selected |-> selected]))
+                   today |-> today, zone |-> zone, selected |-> selected, stats |-> StatsOf]))
 =============================================================================
